@@ -7,6 +7,7 @@
    blocks; reset after a completion): see notes/C19.md for the failing histories. *)
 From Coq Require Import ZArith List Lia Bool Sorted.
 From PV Require Import C19.Model C19.Spec C19.Proofs C19.Proofs2 C19.Proofs3 C19.Proofs4 C19.Proofs5.
+From PV Require C19.Corr C19.Proofs6.   (* not imported: Corr.flag would shadow the state's flag *)
 Import ListNotations.
 Open Scope Z_scope.
 
@@ -327,4 +328,26 @@ Example C19_ex_kwargs :
   snd (pstep_k 0 (mkp 1 2 false) (mkpk PInc 7)) = [(EvProgress 2 2, 7); (EvComplete, 7)] /\
   snd (pstep_k 0 (mkp 1 2 false) (mkpk (PSetValue 2) 7)) = [(EvProgress 2 2, 0); (EvComplete, 0)] /\
   is_complete (pexec pinit [PSetMax 2; PInc]) = false /\ is_complete (pexec pinit [PSetMax 2; PInc; PInc]) = true.
+Proof. vm_compute. repeat split. Qed.
+
+(* ---------------------------------------------------------------------------------------------
+   Stage 3.  The emit clauses of the comparator (coq/theories/C19/Corr.v, codes 21-25, evaluated on
+   what phylib did, with the harness's recording callbacks [Corr.beh0]) are exact: no code is raised
+   for an observed emit outcome o iff o is what the history reading prescribes.  So a clean
+   correspondence run means observed = [spec_emit_all], and any deviation raises a clause. *)
+Theorem C19_emit_checker_exact : forall (p : list Corr.hop) (ev snd : Z) (a : Corr.payload)
+    (single : option bool) (o : Corr.hout),
+  Corr.emit_clauses p ev snd a single (Corr.Ob o) = [] <->
+  o = spec_emit_all Corr.beh0 p ev snd a single.
+Proof. exact Proofs6.emit_clauses_exact. Qed.
+Print Assumptions C19_emit_checker_exact.
+
+Example C19_ex_emit_checker :   (* a wrong order raises 22 only; a missing call 21 and 22; the prescribed outcome nothing *)
+  let a := Corr.mkpl [7] [] in
+  let p := [Connect f2 (Explicit 0) None true; Connect f0 ByName None false] : list Corr.hop in
+  Corr.emit_clauses p 0 1 a None
+    (Corr.Ob (OEmit [mkcall f2 1 a; mkcall f0 1 a] (RList [mkcall f2 1 a; mkcall f0 1 a]))) = [22] /\
+  Corr.emit_clauses p 0 1 a None (Corr.Ob (OEmit [mkcall f0 1 a] (RList [mkcall f0 1 a]))) = [21; 22] /\
+  Corr.emit_clauses p 0 1 a None
+    (Corr.Ob (OEmit [mkcall f0 1 a; mkcall f2 1 a] (RList [mkcall f0 1 a; mkcall f2 1 a]))) = [].
 Proof. vm_compute. repeat split. Qed.
